@@ -235,6 +235,7 @@ func (pool *TxPool) MarkExecuted(header *types.BlockHeader, receipts types.Recei
 	}
 
 	if len(txHashList) > 0 {
+		verifYield("pool.mark.written")
 		pool.remove(txHashList)
 	}
 }
@@ -410,6 +411,7 @@ func (pool *TxPool) add(tx *types.Transaction) (bool, error) {
 	if pool.isTransactionExisted(hash) {
 		return false, ErrExist
 	}
+	verifYield("pool.add.checked")
 	pool.received.push(tx)
 	txPoolLogger.Debugf("[pool]Add tx:%s. global nonce: %d,source:%s,nonce:%d, After add,received size:%d", tx.Hash.String(), tx.RequestId, tx.Source, tx.Nonce, pool.received.Len())
 	return true, nil
